@@ -78,7 +78,7 @@ class RecordingStream(object):
     def __init__(self, world):
         self.world = world
         self.closed = False
-        self._cid = None
+        self._parts = []
         self.flushes = 0
 
     def on_recv(self, cb):
@@ -87,11 +87,18 @@ class RecordingStream(object):
     def send(self, frame, flags=0, **kw):
         if self.closed:
             raise IOError("stream closed")
+        # a ROUTER message is [routing id, payload]: the frames queued with
+        # SNDMORE and the closing one form one message
         if flags & SNDMORE:
-            self._cid = frame
-        else:
-            self.world._reply(self._cid, frame)
-            self._cid = None
+            self._parts.append(frame)
+            return
+        parts, self._parts = self._parts + [frame], []
+        if len(parts) != 2:
+            self.world.framing_errors.append(
+                {"t": self.world.loop.time(),
+                 "frames": [bytes(p)[:80] if isinstance(p, (bytes, bytearray))
+                            else repr(p)[:80] for p in parts]})
+        self.world._reply(parts[0] if len(parts) > 1 else None, parts[-1])
 
     def flush(self, *a, **kw):
         self.flushes += 1
@@ -155,6 +162,7 @@ class SimWorld(object):
         self.max_cb_slept = 0.0
         self.livelock = False
         self.replies = []          # (t, cid, payload)
+        self.framing_errors = []   # ROUTER messages not of the form [id, payload]
         self.events = []           # (t, topic, body dict)
         self.raw_events = []
         self.event_nsig = []
